@@ -975,7 +975,7 @@ Qed.
 Theorem nst_timer_step c e :
   e_fst e = Finished -> e_nst e <> [] ->
   let e' := fst (on_timer c e) in
-  e_nsti e' = (if c_backoff c then cap60 (2 * e_nsti e) else e_nsti e) /\
+  e_nsti e' = bump c (e_nsti e) /\
   e_nstt e' = e_nstt e + e_nsti e' /\ e_nst e' = e_nst e /\ snd (on_timer c e) = pack c (e_nst e).
 Proof.
   intros Hf Hn. unfold on_timer. rewrite Hf. destruct (e_nst e) eqn:E; [congruence|]. cbn. auto.
@@ -1509,26 +1509,51 @@ Proof.
     destruct (neg_timer_step c (fst (ep_timer c (neg_timeouts k c e))) H4) as (_ & H2' & _). exact H2'.
 Qed.
 
-(* a datagram read during negotiation restarts the timeout; it starts the state machine (Flight 1,
-   primed with an empty event) exactly when the server's first message is complete, and is answered
-   by nothing otherwise *)
+(* a datagram read during negotiation changes neither the deadline nor the interval (the timer law
+   of the negotiating client holds whatever arrives in between); it starts the state machine
+   (Flight 1, primed with an empty event) exactly when the server's first message is complete, and
+   is answered by nothing otherwise *)
 Theorem neg_datagram_quiet c e d now :
   negotiating e = true ->
   let e1 := fst (fst (fst (process_records true e d))) in
   has e1 0 HT_SH 0 || has e1 0 HT_HRR 0 = false ->
   snd (ep_datagram c e d now) = [] /\ negotiating (fst (ep_datagram c e d now)) = true /\
-  e_timer (fst (ep_datagram c e d now)) = now + e_interval e /\
-  e_interval (fst (ep_datagram c e d now)) = e_interval e.
+  e_timer (fst (ep_datagram c e d now)) = e_timer e /\
+  e_interval (fst (ep_datagram c e d now)) = e_interval e /\
+  e_out (fst (ep_datagram c e d now)) = e_out e.
 Proof.
   intros Hn. unfold ep_datagram. rewrite Hn. unfold neg_datagram.
   pose proof (same_fsm_process_records true d e) as Hs.
   destruct (process_records true e d) as [[[e1 hs] retr] acks]. cbn [fst] in *. intro Hh.
-  set (e2 := set_fsm e1 _ _ _ _ _ _ _ _ _ _).
-  replace (has e2 0 HT_SH 0 || has e2 0 HT_HRR 0) with (has e1 0 HT_SH 0 || has e1 0 HT_HRR 0) by reflexivity.
   rewrite Hh. cbn [fst snd].
-  destruct Hs as (Hc&Hf&Hst&_&_&_&Hi&_).
-  split; [reflexivity|]. split; [|split; subst e2; cbn; congruence].
-  unfold negotiating in *. subst e2. cbn. rewrite <- Hc, <- Hf, <- Hst. exact Hn.
+  destruct Hs as (Hc&Hf&Hst&_&_&_&Hi&Ht&Ho&_).
+  split; [reflexivity|]. split; [|split; [|split]; congruence].
+  unfold negotiating in *. rewrite <- Hc, <- Hf, <- Hst. exact Hn.
+Qed.
+
+(* hence: any number of datagrams that do not complete the server's first message, then the timer:
+   the same expiry, at the same deadline, as without them *)
+Fixpoint neg_reads (c : cfg) (e : ep) (ds : list (dgram * N)) : ep :=
+  match ds with [] => e | (d, now) :: ds' => neg_reads c (fst (ep_datagram c e d now)) ds' end.
+
+Definition undecided (e : ep) (d : dgram) : Prop :=
+  let e1 := fst (fst (fst (process_records true e d))) in has e1 0 HT_SH 0 || has e1 0 HT_HRR 0 = false.
+
+Fixpoint all_undecided (c : cfg) (e : ep) (ds : list (dgram * N)) : Prop :=
+  match ds with
+  | [] => True
+  | (d, now) :: ds' => undecided e d /\ all_undecided c (fst (ep_datagram c e d now)) ds'
+  end.
+
+Theorem neg_timer_unmoved c ds : forall e,
+  negotiating e = true -> all_undecided c e ds ->
+  let e' := neg_reads c e ds in
+  negotiating e' = true /\ e_timer e' = e_timer e /\ e_interval e' = e_interval e /\ e_out e' = e_out e.
+Proof.
+  induction ds as [|[d now] ds IH]; intros e Hn Hu; cbn [neg_reads]; [auto|].
+  destruct Hu as [Hu1 Hu2].
+  destruct (neg_datagram_quiet c e d now Hn Hu1) as (_ & H1 & H2 & H3 & H4).
+  destruct (IH _ H1 Hu2) as (K1 & K2 & K3 & K4). repeat split; congruence.
 Qed.
 
 (* emission bound with the negotiation phase included *)
@@ -1552,10 +1577,8 @@ Proof.
     pose proof (same_fsm_process_records true d e) as Hs.
     destruct (process_records true e d) as [[[e1 hs] retr] acks]. cbn [fst] in Hs.
     pose proof (bounded_same c e e1 Hs Hb) as Hb1.
-    set (e2 := set_fsm e1 _ _ _ _ _ _ _ _ _ _).
-    assert (Hb2 : bounded c e2) by (destruct Hb1; split; assumption).
-    dif; [|cbn [fst snd]; split; [exact Hb2 | cbn; lia]].
-    apply on_event_bound. destruct Hb2; split; assumption.
+    dif; [|cbn [fst snd]; split; [exact Hb1 | cbn; lia]].
+    apply on_event_bound. destruct Hb1; split; assumption.
   - unfold ep_timer. destruct (negotiating e); [|now apply emission_bound_per_timer].
     unfold neg_timer. cbn [fst snd]. destruct Hb as [H1 H2]. split; [split; assumption|].
     etransitivity; [apply pack_len | exact H1].
